@@ -9,3 +9,26 @@ add("C17", "exploration",
     "Every JSON token of length 0..5 (quick) / 0..6 (thorough) over a 15-symbol hostile alphabet is pushed through the three UnmarshalJSON codecs directly and via goccy/go-json; generated uint64 spellings, byte strings up to 8 KiB, reuse sequences and bint pads are compared with strconv/encoding/hex. Exploration is the right level: the input space is unbounded, the token sub-space is enumerated completely.",
     "Trusted: strconv, encoding/hex as reference; oracle domain decisions listed in evidence.assumptions.",
     "DESIGN.md §7 C17")
+
+PIPE_NOTE = ("Trusted base: fakepg (in-process PostgreSQL wire-protocol server implementing the SQL subset of DESIGN.md §3.1 with read-committed transactional semantics; "
+             "leaves its contract loudly = INCONCLUSIVE), simnode (simulated JSON-RPC node shaped like geth/erigon), the independent reference projection in model/ + refmodel/ (own ABI encoder and Keccak).")
+
+add("C01", "exploration",
+    "reference-model oracle at every commit boundary (fake Postgres + simulated node); generated declarations, chains, schedules, transient faults",
+    "The unmodified pipeline (config JSON → ValidateFix → Migrate → production-wired task → Converge → jrpc2 → dig → pgx COPY) runs against generated growth-only chains; every committed transaction must be exactly one position row plus the rows the independent projection derives from the block versions served for (p, p'], and at quiescence table = projection(start..head). 2000 scenarios quick / 60000 thorough over log/tx/trace modes, batch 1..12 × concurrency 1..6, start kinds, growth interleavings and transient RPC/SQL faults.",
+    PIPE_NOTE, "DESIGN.md §7 C01")
+
+add("C02", "fault_enumeration",
+    "exhaustive single-fault injection at every SQL operation and JSON-RPC call of every step (error reply, drop before/after, process death) + state invariant at every commit boundary + retry-to-golden comparison",
+    "For each base scenario (growth-only and reorg histories × modes × batch × concurrency) a fault-free run lists every I/O operation of every step; each (step, operation, fault kind) is then executed as its own run. At every commit boundary and after every step: no row beyond the position, every covered block holds the rows of one version of it, positions strictly increasing; a failed step leaves a state on the fault-free step's path; the retry reaches the fault-free final state. Random multi-fault runs on top.",
+    PIPE_NOTE + " 'Every observable state' = every commit boundary of fakepg.", "DESIGN.md §7 C02")
+
+add("C03", "exploration",
+    "reference-model oracle at quiescence + state invariant at every commit + deletion monitor; generated reorg histories and reorgs triggered before any chosen JSON-RPC call of a step",
+    "Random reorg histories (depth 1..4, shorter/equal/longer, nested) with batch 1..12 and concurrency 1..4 on hash-carrying plans; after the source settles the table must equal the projection of the canonical chain, all positions canonical, nothing at or below the canonical anchor deleted; a sweep triggers a reorg right before every RPC request of every step of base histories.",
+    PIPE_NOTE + " 'Settles' = stops reorganising and produces one more block above every recorded position.", "DESIGN.md §7 C03")
+
+add("C19", "exploration",
+    "reference-predicate oracle over an exhaustive request grid with a sentinel protected handler; exhaustive single-symbol cookie mutations; login grid",
+    "Every combination of the two switches × password kind × 11 remote addresses × 8 cookie states × 4 methods goes through the real Authn wrapper around a sentinel handler and is compared with the 3-clause predicate of the statement; login attempts with wrong/near-miss/long passwords must never mint a session accepted later. Grid is enumerated completely; random families on top.",
+    "Trusted: net/http/httptest; session cookies are minted only through real POST /login. Route-level wiring in cmd/shovel is not yet exercised (handler level only).", "DESIGN.md §7 C19")
